@@ -594,7 +594,7 @@ func c01TryDelivery(c *Check) {
 	appendsTo := map[types.Object][]Pt{}
 	for _, pt := range r.F.Points() {
 		as, ok := pt.Node().(*ast.AssignStmt)
-		if !ok || len(as.Lhs) != 1 || len(as.Rhs) != 1 || !posIn(loop.Body, as.Pos()) {
+		if !ok || len(as.Lhs) != 1 || len(as.Rhs) != 1 || !within(loop.Body, as) {
 			continue
 		}
 		if o, args := appendTarget(info, as.Lhs[0], as.Rhs[0]); o != nil && len(args) == 1 && loop.IsElem(args[0]) {
